@@ -17,16 +17,30 @@ theorem loadText_cases (reg : Registry) (name text : List UInt8) :
   all_goals first | exact .inr rfl | exact .inl rfl
 
 theorem loadText_rejected_reg (reg : Registry) (name text : List UInt8)
-    (h : (loadText reg name text).2 ≠ .accepted) : (loadText reg name text).1 = reg :=
-  (loadText_cases reg name text).resolve_left h
+    (h : (loadText reg name text).2 ≠ .accepted) : (loadText reg name text).1 = reg := by
+  rcases loadText_cases reg name text with h' | h'
+  · exact absurd h' h
+  · exact h'
+
+theorem tryLoadSrc_text (reg : Registry) (name text : List UInt8) :
+    tryLoadSrc reg (.text name text) =
+      match loadText reg name text with
+      | (r, .accepted) => .ok r
+      | (_, res) => .error (.text res) := rfl
 
 theorem loadSrc_text (reg : Registry) (name text : List UInt8) :
     loadSrc reg (.text name text) = (loadText reg name text).1 := by
   have h := loadText_cases reg name text
-  simp only [loadSrc, tryLoadSrc]
-  rcases hlt : loadText reg name text with ⟨r, res⟩
-  rw [hlt] at h
-  cases res <;> first | rfl | (rcases h with h | h; · cases h; · exact h.symm)
+  unfold loadSrc
+  rw [tryLoadSrc_text]
+  generalize loadText reg name text = p at h ⊢
+  obtain ⟨r, res⟩ := p
+  cases res
+  case accepted => rfl
+  all_goals
+    rcases h with h | h
+    · cases h
+    · exact h.symm
 
 theorem loadSrc_stmts (reg : Registry) (f : SrcFile) (h : ∃ r, tryLoad reg f = .ok r) :
     loadSrc reg (.stmts f true) = loadFile reg f := by
